@@ -6,8 +6,8 @@
 //                    (cons-dir from shortcut s: β_s; against cons-dir: β_{n-1}; one step further
 //                    when that first hop is a peer hop), never indexes out of range
 //   C01.mac-chain    AsEntry::update_macs (through the real add_unsigned_entry): MAC_i =
-//                    calculate_hop_mac(β_i, ts, exp_i, in_i, eg_i, key_i), β_{i+1} = β_i ^ MAC_i[0..2]
-//   C01.peer-chain   peer hop fields of entry i are chained with β_{i+1} (SCION: extender.go
+//                    calculate_hop_mac(β_i, ts, exp_i, in_i, eg_i, key_i), β_(i+1) = β_i ^ MAC_i[0..2]
+//   C01.peer-chain   peer hop fields of entry i are chained with β_(i+1) (SCION: extender.go
 //                    `peerBeta := extendBeta(beta, hopEntry.HopField.MAC)`), which is what
 //                    initialize_segment_id assumes for peer edges        [fails: finding F-peer]
 // `calculate_hop_mac` (AES-128-CMAC) is replaced by a cheap deterministic mixing function: the
@@ -110,6 +110,6 @@ fn c01_kf_peer_mac_chain_l2() {
     for b in 0..6 {
         same &= hf.mac.0[b] == want[b];
     }
-    assert!(same, "C01.peer-chain: peer hop MAC of entry i must be chained with β_{i+1} (the value initialize_segment_id hands to the router)");
+    assert!(same, "C01.peer-chain: peer hop MAC of entry i must be chained with β_(i+1) (the value initialize_segment_id hands to the router)");
     kani::cover!(i == 1, "second entry");
 }
